@@ -308,10 +308,10 @@ def run(ctx):
     t, o = rec("actx", [], "actx")
     jobs.append(Job("ascii-contexts", t, "actx", {"EXHLEN": 1, "EXPECT_EXH": o[1]}))
     p_exh = 1 if quick else 4
-    t, o = rec("apair", [p_exh, 2000 if quick else 0], "apair")
+    t, o = rec("apair", [p_exh, 1000 if quick else 0], "apair")
     jobs.append(Job("ascii-pairs", t, "apair", {"EXHLEN": p_exh, "EXPECT_EXH": o[1]}, weight=3))
-    b_exh = 5 if quick else 60
-    t, o = rec("bigint", [b_exh, 3000 if quick else 0], "bigint")
+    b_exh = 3 if quick else 60
+    t, o = rec("bigint", [b_exh, 2000 if quick else 0], "bigint")
     jobs.append(Job("int-value-boundary", t, "bigint", {"EXHLEN": b_exh, "EXPECT_EXH": o[1]}, weight=3))
     f_exh = 1 if quick else 16
     t, o = rec("floatlim", [f_exh, 2000 if quick else 0], "floatlim")
